@@ -32,6 +32,8 @@ def axis_faces(draw, kind, n, spacing, r0_mode=None, theta_touch=False):
         w = np.ones(n)
     elif spacing == 'ratio':   # geometric grading
         q = draw(st.sampled_from([0.5, 0.8, 1.25, 2.0, 3.0]))
+        if n > 8:
+            q = q ** (8.0 / n)          # keep the total ratio <= 3^8 so faces stay strictly increasing
         w = q ** np.arange(n)
     else:
         w = np.array([draw(st.floats(0.2, 5.0, **finite)) for _ in range(n)])
@@ -213,3 +215,49 @@ def noflux_bcs(name, dims, periodic_axes=()):
 
 
 limiter_names = st.sampled_from(LIMITERS)
+
+
+# ----------------------------------------------------------------------------- divergence-free velocity
+
+@st.composite
+def divfree_velocity(draw, name, faces, amp=None):
+    """Discretely divergence-free face velocity from discrete stream functions (>=2-D) or a constant
+    flow rate (1-D):  A_a u_a = +d_b psi,  A_b u_b = -d_a psi  with the face-area factors A of the
+    discretisation (oracle.Geometry.Ad).  psi comes from `expand` (seed drawn by Hypothesis)."""
+    from .oracle import Geometry
+    import itertools
+    geo = Geometry(name, faces)
+    d = geo.dims
+    nd = geo.nd
+    if amp is None:
+        amp = draw(st.sampled_from([1.0, 0.1, 10.0, 1e-3]))
+    shapes = face_shapes(d)
+    comps = [np.zeros(s) for s in shapes]
+    if nd == 1:
+        q = draw(st.sampled_from([1.0, -1.0, 0.5, -0.25, 0.0])) * amp
+        A = geo.Ad[0]
+        if np.any(A == 0):
+            q = 0.0      # no source at the axis r = 0: the only divergence-free radial flow is rest
+            comps[0] = np.zeros(shapes[0])
+        else:
+            comps[0] = q / A
+    else:
+        for a, b in itertools.combinations(range(nd), 2):
+            shp = [d[k] + 1 if k in (a, b) else d[k] for k in range(nd)]
+            style = draw(st.sampled_from(['generic', 'int', 'zeros']))
+            seed = draw(st.integers(0, 2 ** 31 - 1))
+            psi = expand(style, seed, shp) * amp
+            Aa, Ab = geo.Ad[a], geo.Ad[b]
+            if np.any(Aa == 0):
+                # faces of zero area (axis r=0): psi must not vary along b there
+                idx = [slice(None)] * nd
+                idx[a] = 0
+                first = list(idx)
+                first[b] = slice(0, 1)
+                psi[tuple(idx)] = np.broadcast_to(psi[tuple(first)], psi[tuple(idx)].shape)
+            da = np.diff(psi, axis=b)     # lives on a-faces
+            db = np.diff(psi, axis=a)     # lives on b-faces
+            with np.errstate(all='ignore'):
+                comps[a] = comps[a] + np.where(Aa > 0, da / np.where(Aa > 0, Aa, 1.0), 0.0)
+                comps[b] = comps[b] - np.where(Ab > 0, db / np.where(Ab > 0, Ab, 1.0), 0.0)
+    return [c.tolist() for c in comps]
